@@ -15,7 +15,7 @@ T=$(ls $SRC/*_test.go | head -1)
 pkgdir=$(python3 - "$SRC" <<'PY'
 import json,sys,re,glob
 import os
-m=json.load(open(sys.argv[1]+('/meta.json' if os.path.exists(sys.argv[1]+'/meta.json') else '/agent_meta.json')))
+m=json.load(open(sys.argv[1]+('/agent_meta.json' if os.path.exists(sys.argv[1]+'/agent_meta.json') else '/meta.json')))
 c=m.get('demo_cmd','')
 d=re.findall(r'\./([A-Za-z0-9_/]+?)/?(?:\s|$)',c)
 print(d[-1] if d else '')
@@ -24,7 +24,7 @@ PY
 run=$(python3 - "$SRC" <<'PY'
 import json,sys,re
 import os
-m=json.load(open(sys.argv[1]+('/meta.json' if os.path.exists(sys.argv[1]+'/meta.json') else '/agent_meta.json')))
+m=json.load(open(sys.argv[1]+('/agent_meta.json' if os.path.exists(sys.argv[1]+'/agent_meta.json') else '/meta.json')))
 c=m.get('demo_cmd','')
 r=re.search(r"-run\s+'?([A-Za-z0-9_|^$]+)'?",c)
 print(r.group(1) if r else 'TestSeed')
